@@ -148,15 +148,15 @@ class C01(FrpProp):
 class C04(FrpProp):
     pid = "C04"
     tag = "c04"
-    profile = Profile(w=W(hold=12, accum=8, collect=6, snapshot=10, csink=5, hold_lazy=3, accum_lazy=2, gate=4),
-                      p_sample=0.7, p_def_in_txn=0.25, n_txn=(5, 20), p_listen_late=0.2)
+    profile = Profile(w=W(hold=12, accum=8, collect=6, snapshot=10, csink=5, hold_lazy=5, accum_lazy=4, gate=4),
+                      p_sample=0.7, p_def_in_txn=0.25, n_txn=(5, 20), p_listen_late=0.2, p_lazy=0.25)
 
 
 class C05(FrpProp):
     pid = "C05"
     tag = "c05"
-    profile = Profile(w=W(switch_s=10, switch_c=10, hold=8, map_c=6), n_defs=(5, 14), n_txn=(5, 16), p_block=0.7,
-                      p_sample=0.5)
+    profile = Profile(w=W(switch_s=10, switch_c=10, hold=8, map_c=6, defer=3, split=2, sloop=1, cloop=1), n_defs=(5, 14),
+                      n_txn=(5, 16), p_block=0.7, p_sample=0.5, p_post=0.1, p_def_in_txn=0.1)
 
 
 class C10(FrpProp):
@@ -218,7 +218,7 @@ class C15(FrpProp):
 class C17(FrpProp):
     pid = "C17"
     tag = "c17"
-    profile = Profile(w=W(hold_lazy=6, accum_lazy=4, map_c=8, lift=8, cloop=3, hold=6), p_lazy=0.7, p_sample=0.3,
+    profile = Profile(w=W(hold_lazy=6, accum_lazy=4, map_c=8, lift=8, cloop=3, hold=6, switch_c=1), p_lazy=0.7, p_sample=0.3,
                       n_txn=(4, 14))
 
 
